@@ -19,6 +19,10 @@ use crate::net::Error;
 pub struct LazyClient {
     addr: SocketAddr,
     client: Arc<OnceCell<Mutex<SendRequest<Body>>>>,
+    /// Verification only: a connection which is replaced once it is known to be closed,
+    /// like the pooled production client does (this simulation client never re-dials).
+    #[cfg(datacake_verif)]
+    redial: Arc<Mutex<Option<SendRequest<Body>>>>,
 }
 
 impl LazyClient {
@@ -27,6 +31,8 @@ impl LazyClient {
         Self {
             addr: socket,
             client: Arc::new(OnceCell::new()),
+            #[cfg(datacake_verif)]
+            redial: Arc::new(Mutex::new(None)),
         }
     }
 
@@ -67,3 +73,57 @@ impl LazyClient {
             .await
     }
 }
+
+#[cfg(datacake_verif)]
+impl LazyClient {
+    /// Sends a request over the current connection, dialling a new one first if there is
+    /// none yet or the previous one has been closed (peer restarted, reset, ...).
+    pub async fn send_redialing(
+        &self,
+        request: http::Request<Body>,
+    ) -> Result<http::Response<Body>, Error> {
+        use hyper::service::Service;
+
+        let mut slot = self.redial.lock().await;
+        let usable = match slot.as_mut() {
+            Some(sender) => {
+                std::future::poll_fn(|cx| sender.poll_ready(cx))
+                    .await
+                    .is_ok()
+            },
+            None => false,
+        };
+        if !usable {
+            *slot = None;
+            let io = timeout(
+                Duration::from_secs(2),
+                turmoil::net::TcpStream::connect(self.addr),
+            )
+            .await
+            .map_err(|_| {
+                Error::Io(io::Error::new(
+                    ErrorKind::TimedOut,
+                    "Failed to connect within deadline",
+                ))
+            })??;
+
+            let (sender, connection) = hyper::client::conn::Builder::new()
+                .http2_keep_alive_while_idle(true)
+                .http2_only(true)
+                .http2_adaptive_window(true)
+                .handshake(io)
+                .await?;
+
+            tokio::spawn(async move {
+                if let Err(e) = connection.await {
+                    error!(error = ?e, "Error in client connection");
+                }
+            });
+            *slot = Some(sender);
+        }
+
+        let sender = slot.as_mut().expect("connection was just established");
+        Ok(sender.send_request(request).await?)
+    }
+}
+
